@@ -623,24 +623,29 @@ pub fn run(ctx: &Ctx) {
     {
         let n = ctx.tier.pick(300usize, 1200usize);
         let chars = ["\u{B0}", "\u{20AC}", "\u{1F600}"];
-        let sp = Space::new(&[n + 1, chars.len(), 2]);
+        let sp = Space::new(&[n + 1, chars.len(), 2, 2]);
         let s2 = sp.clone();
-        ctx.run_family(Family::new("c12.text_char_positions", sp.size(), format!("a document with a PDU id and a frame id defined twice whose second definition's DESC / SHORT-NAME holds one 2-, 3- or 4-byte character at EVERY byte offset 0..={} of an ASCII text; loaded normally and (trace pass) with logging on", n), move |i, loc| {
+        ctx.run_family(Family::new("c12.text_char_positions", sp.size(), format!("a document with a PDU id and a frame id defined twice whose first (winning) or second (discarded) definition's DESC / SHORT-NAME holds one 2-, 3- or 4-byte character at EVERY byte offset 0..={} of an ASCII text; loaded normally and (trace pass) with logging on", n), move |i, loc| {
             let c = s2.coords(i);
+            let first_def = c[3] == 1;
             let mut t = "a".repeat(c[0]);
             t.push_str(chars[c[1]]);
             t.push_str(&"b".repeat(40));
-            let elems: Vec<Elem> = vec![
+            let mut elems: Vec<Elem> = vec![
                 Elem::Pdu(pdu("P1", Desc::Text("first".into()), &[("S_UINT8", 0)])),
                 Elem::Pdu(pdu("P1", Desc::Text(if c[2] == 0 { t.clone() } else { "second".into() }), &[("S_SINT16", 0)])),
                 Elem::Frame(frame("ID_1", "first frame", &[("P1", 0)], None)),
                 Elem::Frame(frame("ID_1", if c[2] == 1 { &t } else { "second frame" }, &[("P1", 0)], None)),
             ];
+            if first_def {
+                elems.swap(0, 1);
+                elems.swap(2, 3);
+            }
             let d = render_doc(&elems, &Layout { indent: c[0] % 2 == 0, ..Layout::default() }).into_bytes();
             let dir = thread_dir();
             let p = format!("{}/txt.xml", dir);
             std::fs::write(&p, &d).expect("write");
-            let what = format!("duplicate PDU / frame ids, {} text with a {}-byte character at offset {}", if c[2] == 0 { "DESC" } else { "SHORT-NAME" }, chars[c[1]].len(), c[0]);
+            let what = format!("duplicate PDU / frame ids, {} text of the {} definition with a {}-byte character at offset {}", if c[2] == 0 { "DESC" } else { "SHORT-NAME" }, if first_def { "first" } else { "second" }, chars[c[1]].len(), c[0]);
             loc.state(i + 9_000_000, true);
             judge_paths(&[p], &what, json!({"what": what}), loc);
         }).trace(100_000));
